@@ -344,12 +344,41 @@ Proof.
   split; [|assumption]. unfold has in *. now rewrite Eg.
 Qed.
 
-Lemma repack_keeps_live fuel r lim r' :
-  wf_modes r = true -> wf_index r = true ->
-  repack fuel r lim = Ok r' ->
+Lemma In_insert_n x y l : In x (insert_n y l) <-> x = y \/ In x l.
+Proof.
+  induction l as [|z l IH]; cbn [insert_n].
+  - cbn. intuition congruence.
+  - destruct (y =? z) eqn:E.
+    + apply N.eqb_eq in E. subst. cbn. intuition congruence.
+    + destruct (y <? z); cbn [In]; [intuition congruence|]. rewrite IH. intuition congruence.
+Qed.
+
+Lemma In_sort_n x l : In x (sort_n l) <-> In x l.
+Proof.
+  unfold sort_n. induction l as [|y l IH]; cbn [fold_right]; [tauto|].
+  rewrite In_insert_n, IH. cbn. intuition congruence.
+Qed.
+
+Lemma ids_eqb_eq a b : ids_eqb a b = true <-> a = b.
+Proof.
+  revert b. induction a as [|x a IH]; destruct b as [|y b]; cbn; split; try congruence; intro H.
+  - apply andb_true_iff in H as [H1 H2]. apply N.eqb_eq in H1. apply IH in H2. congruence.
+  - inversion H; subst. rewrite N.eqb_refl. cbn. now apply IH.
+Qed.
+
+Lemma ids_eqb_refl l : ids_eqb l l = true.
+Proof. now apply ids_eqb_eq. Qed.
+
+(* content addressing: a pack's name starts with its sorted object set *)
+Definition wf_names (r : repo) : bool :=
+  forallb (fun p => ids_eqb (fst p.(p_name)) (sort_n p.(p_objs))) r.(packs).
+
+Lemma repack_keeps_live fuel r lim v r' :
+  wf_modes r = true -> wf_index r = true -> wf_names r = true ->
+  repack fuel r lim v = Ok r' ->
   forall h, live r h -> has r h = true -> has r' h = true /\ get r' h = get r h.
 Proof.
-  intros Hwm Hwi H h Hl Hh. unfold repack in H.
+  intros Hwm Hwi Hwn H h Hl Hh. unfold repack in H.
   destruct (walk_all fuel r) as [st|e] eqn:E; [|discriminate].
   destruct (forallb (has r) (present st)); [|discriminate]. inversion H; subst. clear H.
   destruct (walk_all_live _ _ _ Hwm Hwi E) as [Hlive Hmiss].
@@ -358,8 +387,158 @@ Proof.
   assert (Hp : In h (present st)).
   { unfold present. apply filter_In. split; [assumption|]. apply negb_true_iff, mem_nIn.
     intro Hm. apply Hmiss in Hm. congruence. }
+  set (nm := (sort_n (present st), v)).
   match goal with |- has ?R h = true /\ _ => assert (Hst' : stored R h = true) end.
-  { unfold stored. cbn. apply orb_true_iff. right. apply orb_true_iff. left. now apply mem_In. }
+  { unfold stored. cbn [set_store loose packs]. apply orb_true_iff. right. apply existsb_exists.
+    destruct (existsb (fun p => name_eqb (p_name p) nm) (packs r)) eqn:Ex.
+    - (* a pack of that name is already there: it holds the same objects, and it is kept *)
+      apply existsb_exists in Ex as (p & Hin & Hnm).
+      exists p. split; [apply filter_In; split; [assumption|now rewrite Hnm]|].
+      unfold wf_names in Hwn. rewrite forallb_forall in Hwn. specialize (Hwn p Hin).
+      unfold name_eqb in Hnm. apply andb_true_iff in Hnm as [Hnm _]. cbn [fst nm] in Hnm.
+      apply ids_eqb_eq in Hnm. apply ids_eqb_eq in Hwn. rewrite Hnm in Hwn.
+      apply mem_In. apply In_sort_n. rewrite <- Hwn. now apply In_sort_n.
+    - eexists. split; [apply filter_In; split; [now left|]|].
+      + cbn [p_name]. unfold name_eqb. now rewrite ids_eqb_refl, N.eqb_refl.
+      + cbn [p_objs]. now apply mem_In. }
   assert (Eg := get_set_store r _ _ h Hst' Hst).
   split; [|assumption]. unfold has in *. now rewrite Eg.
+Qed.
+
+(* ---------- histories ---------- *)
+
+Definition op_ok (r : repo) (op : gcop) : bool :=
+  match op with GStage o => blob_or_unknown r o | _ => true end.
+
+Definition inv (r : repo) : Prop := wf_modes r = true /\ wf_index r = true /\ wf_names r = true.
+
+Lemma repack_shape fuel r lim v r' : repack fuel r lim v = Ok r' ->
+  objs r' = objs r /\ roots r' = roots r /\ shallow r' = shallow r /\ index r' = index r /\
+  forall p, In p r'.(packs) -> In p r.(packs) \/ ids_eqb (fst p.(p_name)) (sort_n p.(p_objs)) = true.
+Proof.
+  unfold repack. destruct (walk_all fuel r); [|discriminate].
+  destruct (forallb (has r) (present a)); [|discriminate]. intro H. inversion H; subst. clear H.
+  cbn [set_store objs roots shallow index packs]. repeat split; try reflexivity.
+  intros p Hp. apply filter_In in Hp as [Hp _].
+  destruct (existsb _ (packs r)); [now left|]. destruct Hp as [<-|Hp]; [right; cbn; apply ids_eqb_refl|now left].
+Qed.
+
+Lemma prune_shape fuel r lim r' : prune fuel r lim = Ok r' ->
+  objs r' = objs r /\ roots r' = roots r /\ shallow r' = shallow r /\ index r' = index r /\ packs r' = packs r.
+Proof.
+  unfold prune. destruct (walk_all fuel r); [|discriminate]. intro H. inversion H; subst. now cbn.
+Qed.
+
+Lemma wf_modes_objs r r' : objs r' = objs r -> wf_modes r' = wf_modes r.
+Proof. intro E. unfold wf_modes, blob_or_unknown. now rewrite E. Qed.
+
+Lemma wf_index_objs r r' : objs r' = objs r -> index r' = index r -> wf_index r' = wf_index r.
+Proof. intros E1 E2. unfold wf_index, blob_or_unknown. now rewrite E1, E2. Qed.
+
+Lemma step_shape op r r' : gc_step op r = Ok r' ->
+  objs r' = objs r /\ roots r' = roots r /\ shallow r' = shallow r.
+Proof.
+  destruct op; cbn [gc_step]; intro H.
+  - apply prune_shape in H. tauto.
+  - apply repack_shape in H. tauto.
+  - inversion H; subst. destruct (mem o (map fst (loose r))); now cbn.
+  - inversion H; subst. now cbn.
+Qed.
+
+Lemma step_inv op r r' : inv r -> op_ok r op = true -> gc_step op r = Ok r' -> inv r'.
+Proof.
+  intros (Wm & Wi & Wn) Hok H. destruct op; cbn [gc_step] in H.
+  - apply prune_shape in H as (E1 & _ & _ & E4 & E5). repeat split.
+    + now rewrite (wf_modes_objs _ _ E1).
+    + now rewrite (wf_index_objs _ _ E1 E4).
+    + unfold wf_names. now rewrite E5.
+  - apply repack_shape in H as (E1 & _ & _ & E4 & E5). repeat split.
+    + now rewrite (wf_modes_objs _ _ E1).
+    + now rewrite (wf_index_objs _ _ E1 E4).
+    + unfold wf_names in *. apply forallb_forall. intros p Hp. rewrite forallb_forall in Wn.
+      destruct (E5 p Hp) as [Hin|Hn]; [now apply Wn|assumption].
+  - inversion H; subst. destruct (mem o (map fst (loose r))); repeat split; assumption.
+  - inversion H; subst. repeat split; try assumption.
+    unfold wf_index in *. cbn [index objs] in *. cbn [forallb fst snd orb].
+    unfold blob_or_unknown in *. cbn [objs] in *. cbn in Hok. unfold blob_or_unknown in Hok. now rewrite Hok, Wi.
+Qed.
+
+Lemma step_keeps op r r' : inv r -> gc_step op r = Ok r' ->
+  forall h, live r h -> has r h = true -> has r' h = true /\ get r' h = get r h.
+Proof.
+  intros (Wm & Wi & Wn) H h Hl Hh. destruct op; cbn [gc_step] in H.
+  - eapply prune_keeps_live; eassumption.
+  - eapply repack_keeps_live; eassumption.
+  - inversion H; subst. destruct (mem o (map fst (loose r))); [auto|].
+    assert (Hst := has_stored _ _ Hh).
+    assert (Hst' : stored (set_store r ((o, false) :: loose r) (packs r)) h = true).
+    { unfold stored in *. cbn [set_store loose packs map fst mem existsb] in *. unfold mem in *. cbn [existsb].
+      apply orb_true_iff in Hst as [Hst|Hst]; [rewrite Hst; now rewrite orb_true_r|rewrite Hst; apply orb_true_r]. }
+    assert (Eg := get_set_store r _ _ h Hst' Hst). split; [|assumption]. unfold has in *. now rewrite Eg.
+  - inversion H; subst. unfold has, get, stored in *. cbn [loose packs objs] in *. auto.
+Qed.
+
+Lemma index_roots_step op r r' : gc_step op r = Ok r' -> forall x, In x (index_roots r) -> In x (index_roots r').
+Proof.
+  intros H x Hx. destruct op; cbn [gc_step] in H.
+  - apply prune_shape in H as (_ & _ & _ & E4 & _). unfold index_roots. now rewrite E4.
+  - apply repack_shape in H as (_ & _ & _ & E4 & _). unfold index_roots. now rewrite E4.
+  - inversion H; subst. destruct (mem o (map fst (loose r))); assumption.
+  - inversion H; subst. unfold index_roots in *. cbn [index filter fst negb map snd]. now right.
+Qed.
+
+(* what is live stays live *)
+Lemma step_live op r r' : inv r -> gc_step op r = Ok r' -> forall h, live r h -> live r' h.
+Proof.
+  intros I H h Hl. destruct (step_shape _ _ _ H) as (E1 & E2 & E3).
+  unfold live in *. induction Hl as [h Hr|h c Hl IH Hc].
+  - apply reach_root. apply in_app_or in Hr as [Hr|Hr]; apply in_or_app; [left; now rewrite E2|right].
+    eapply index_roots_step; eassumption.
+  - apply reach_step with (h := h); [assumption|].
+    assert (Hh : has r h = true).
+    { unfold child in Hc. unfold has. destruct (get r h); [reflexivity|contradiction]. }
+    destruct (step_keeps _ _ _ I H h Hl Hh) as [_ Eg].
+    unfold child in *. rewrite Eg, E3. exact Hc.
+Qed.
+
+Lemma run_seq_keeps ops : forall r, inv r -> forallb (op_ok r) ops = true ->
+  forall h, live r h -> has r h = true ->
+  has (run_seq ops r) h = true /\ get (run_seq ops r) h = get r h.
+Proof.
+  induction ops as [|op ops IH]; intros r I Hok h Hl Hh; [auto|].
+  cbn [forallb] in Hok. apply andb_true_iff in Hok as [Ho Hok].
+  cbn [run_seq fold_left]. fold (run_seq ops (gc_apply op r)).
+  unfold gc_apply. destruct (gc_step op r) as [r1|e] eqn:E; [|now apply IH].
+  destruct (step_keeps _ _ _ I E h Hl Hh) as [Hh1 Eg1].
+  destruct (step_shape _ _ _ E) as (E1 & _ & _).
+  destruct (IH r1 (step_inv _ _ _ I Ho E)) with (h := h) as [Hh2 Eg2]; try assumption.
+  - rewrite forallb_forall in *. intros x Hx. specialize (Hok x Hx). unfold op_ok, blob_or_unknown in *. now rewrite E1.
+  - eapply step_live; eassumption.
+  - split; [assumption|congruence].
+Qed.
+
+Lemma run_seq_inv ops : forall r, inv r -> forallb (op_ok r) ops = true ->
+  inv (run_seq ops r) /\ objs (run_seq ops r) = objs r.
+Proof.
+  induction ops as [|op ops IH]; intros r I Hok; [auto|].
+  cbn [forallb] in Hok. apply andb_true_iff in Hok as [Ho Hok].
+  cbn [run_seq fold_left]. fold (run_seq ops (gc_apply op r)).
+  unfold gc_apply. destruct (gc_step op r) as [r1|e] eqn:E; [|now apply IH].
+  destruct (step_shape _ _ _ E) as (E1 & _ & _).
+  destruct (IH r1 (step_inv _ _ _ I Ho E)) as [I2 E2].
+  - rewrite forallb_forall in *. intros x Hx. specialize (Hok x Hx). unfold op_ok, blob_or_unknown in *. now rewrite E1.
+  - split; [assumption|congruence].
+Qed.
+
+(* at every point of a history: what is live and readable then stays readable to the end *)
+Lemma history_keeps_live a b r :
+  inv r -> forallb (op_ok r) (a ++ b) = true ->
+  forall h, live (run_seq a r) h -> has (run_seq a r) h = true ->
+  has (run_seq (a ++ b) r) h = true /\ get (run_seq (a ++ b) r) h = get (run_seq a r) h.
+Proof.
+  intros I Hok h Hl Hh. rewrite forallb_app in Hok. apply andb_true_iff in Hok as [Ha Hb].
+  destruct (run_seq_inv a r I Ha) as [Ia Ea].
+  assert (Es : run_seq (a ++ b) r = run_seq b (run_seq a r)) by (unfold run_seq; apply fold_left_app).
+  rewrite Es. apply run_seq_keeps; try assumption.
+  rewrite forallb_forall in *. intros x Hx. specialize (Hb x Hx). unfold op_ok, blob_or_unknown in *. now rewrite Ea.
 Qed.
